@@ -535,8 +535,10 @@ class Check:
         }
         if self.level != "proof":
             ev["coverage"]["explanation"] = getattr(self, "explanation", "see DESIGN.md")
-        os.makedirs(os.path.join(VERIF, "evidence"), exist_ok=True)
-        with open(os.path.join(VERIF, "evidence", "%s.json" % prop), "w") as fh:
+        # self-test runs against deliberately broken trees keep their evidence out of the committed directory
+        evdir = os.environ.get("PYVC_EVIDENCE_DIR") or os.path.join(VERIF, "evidence")
+        os.makedirs(evdir, exist_ok=True)
+        with open(os.path.join(evdir, "%s.json" % prop), "w") as fh:
             json.dump(ev, fh, indent=1, default=str)
         for ln in lines:
             print(ln)
